@@ -64,7 +64,9 @@ func (r *Runner) Run(c context.Context) (result runner.Result) {
 	go func() {
 		defer close(cancelDone)
 		<-ctx.Done()
+		verifCancelGate(pgid, 0)
 		killAll(pgid)
+		verifCancelGate(pgid, 1)
 	}()
 
 	// kill all tracee upon return
